@@ -207,7 +207,6 @@ void h_cfun_string_replace(void) {
     if (g_mm < (size_t)at) __CPROVER_assert(out[g_mm] == g_text.bytes[g_mm], "C17: string/replace keeps the bytes before the occurrence");
     if (g_mm < (size_t)g_sub.len) __CPROVER_assert(out[at + g_mm] == g_sub.bytes[g_mm], "C17: string/replace puts subst at the occurrence");
     if (g_mm < (size_t)(g_text.len - at - g_pat.len)) __CPROVER_assert(out[(size_t)at + g_sub.len + g_mm] == g_text.bytes[(size_t)at + g_pat.len + g_mm], "C17: string/replace keeps the bytes behind the occurrence");
-    __CPROVER_assert(out[LAST_STRING->length] == 0, "C17: result string is NUL terminated");
     REACH("string/replace returns after replacing");
   }
 }
